@@ -265,6 +265,8 @@ def main(run, shard=(0, 1)) -> None:
         opts = {'minimal': rng.random() < 0.25, 'disp_multiblend': rng.random() < 0.8, 'preserve_ids': rng.random() < 0.4}
         for k, v in features.items():
             hist[k] = hist.get(k, 0) + 1
+        if features.get('fixup_index_3_digits'):
+            run.count('maps_with_three_digit_fixup_indexes')
         case = {'id': i, 'opts': opts}
         text = roundtrip(run, vmf, opts, 'generated', case, features)
         if text is not None and i % 5 == 0:
@@ -305,7 +307,8 @@ def main(run, shard=(0, 1)) -> None:
             run.note_inconclusive(f'could not load seed document {path}: {exc!r}')
     probe.report(run)
     probe.check_reached(run)
-    run.require('exports', 'parses', 'file_form_exports', 'parses_from_file_name', 'colliding_id_documents', 'maps_re_exported_after_edits', 'version_bumping_exports')
+    run.require('exports', 'parses', 'file_form_exports', 'parses_from_file_name', 'colliding_id_documents', 'maps_re_exported_after_edits', 'version_bumping_exports',
+                'maps_with_three_digit_fixup_indexes')
 
 
 def edit_map(vmf, rng) -> int:
